@@ -7,6 +7,8 @@
 import Model.C01
 import Properties.C09
 import Proofs.C01
+import Model.Generated.Phases
+import Mathlib.Tactic.NormNum
 import Proofs.ArithReal
 import Mathlib.Tactic.Positivity
 import Mathlib.Tactic.Linarith
@@ -134,6 +136,40 @@ theorem neighBoth_inRelaxed (d : Domain) (x : List Rat) (hw : d.wf = true) (hic 
   simp only [List.mem_flatMap] at hy
   obtain ⟨z, hz, hyz⟩ := hy
   exact neighCat_inRelaxed d z (neighInt_inRelaxed d x hw hic hx z hz) y hyz
+
+/-! ### Which neighbour search is used (decision function regenerated from the source) -/
+
+/-- number of lattice candidates `find_best_one_hot_neighbor_by_af` evaluates per point -/
+def candidateCount (o : Gen.ConvOption) (ints cats : Int) : Int :=
+  match o with
+  | .none => 1
+  | .int => 2 ^ ints.toNat
+  | .cat => cats
+  | .both => cats * 2 ^ ints.toNat
+
+/-- The generated `get_discrete_conversion_option` only ever selects a neighbour search whose candidate set is
+    bounded: at most 30000 candidates per point, for every number of int components and every product of
+    category counts. -/
+theorem conv_option_bounds (ints cats : Int) (hc : 1 ≤ cats) :
+    (Gen.get_discrete_conversion_option ints cats = .both → 0 < ints ∧ ints ≤ 14 ∧ 1 < cats ∧ cats ≤ 4000 ∧ cats * 2 ^ ints.toNat ≤ 30000) ∧
+    (Gen.get_discrete_conversion_option ints cats = .int → 0 < ints ∧ ints ≤ 14) ∧
+    (Gen.get_discrete_conversion_option ints cats = .cat → 1 < cats ∧ cats ≤ 4000) := by
+  simp only [Gen.get_discrete_conversion_option]
+  refine ⟨?_, ?_, ?_⟩ <;> intro h <;> split_ifs at h <;> simp_all <;> (try norm_cast at *) <;> (try omega)
+
+theorem candidateCount_le (ints cats : Int) (hc : 1 ≤ cats) :
+    candidateCount (Gen.get_discrete_conversion_option ints cats) ints cats ≤ 30000 := by
+  obtain ⟨hb, hi, hk⟩ := conv_option_bounds ints cats hc
+  cases h : Gen.get_discrete_conversion_option ints cats with
+  | none => simp [candidateCount]
+  | both => simp only [candidateCount]; exact (hb h).2.2.2.2
+  | cat => simp only [candidateCount]; have := (hk h).2; omega
+  | int =>
+    simp only [candidateCount]
+    obtain ⟨h0, h14⟩ := hi h
+    have : ints.toNat ≤ 14 := by omega
+    calc (2 : Int) ^ ints.toNat ≤ 2 ^ 14 := by exact_mod_cast Nat.pow_le_pow_right (by norm_num) this
+      _ ≤ 30000 := by norm_num
 
 /-! ### Count -/
 
